@@ -435,7 +435,15 @@ fn c19_fleet_broadcast(case: &Case) {
         FleetOptions { default_timeout: Duration::from_millis(50), retry_policy: RetryPolicy { max_attempts, delay: Duration::from_millis(5) } },
     )
     .unwrap();
-    let want_tags: Vec<&str> = all_tags.iter().copied().filter(|_| simkernel::choose(3) == 0).collect();
+    let mut want_tags: Vec<&str> = all_tags.iter().copied().filter(|_| simkernel::choose(3) == 0).collect();
+    // the requested tags come in any order and may repeat
+    if want_tags.len() >= 2 && simkernel::choose(2) == 0 {
+        want_tags.reverse();
+    }
+    if !want_tags.is_empty() && simkernel::choose(4) == 0 {
+        let t = want_tags[simkernel::choose(want_tags.len() as u32) as usize];
+        want_tags.push(t);
+    }
     case.sample(json!({"nodes": node_tags, "flaky": flaky.iter().map(|s| format!("{s:?}")).collect::<Vec<_>>(), "broadcast_tags": want_tags, "max_attempts": max_attempts}));
     let out = fleet.broadcast_json("/m/bc", Some(&json!({"x": 1})), &want_tags);
     let addressed: Vec<String> = (0..nnodes).filter(|n| want_tags.iter().all(|t| node_tags[*n].contains(t))).map(|n| format!("n{n}")).collect();
